@@ -133,6 +133,14 @@ impl EvaluatedDecisionTable {
     match self.default_output_values.len() {
       0 => value_null!("no rules matched, no output value defined"),
       1 => self.default_output_values[0].clone(),
+      n if n == self.component_names.len() => {
+        // every output clause defines its default output entry: the default result is composed the same way as the result of a rule
+        let mut result: FeelContext = Default::default();
+        for (component_name, value) in self.component_names.iter().zip(self.default_output_values.iter()) {
+          result.set_entry(component_name, value.clone());
+        }
+        Value::Context(result)
+      }
       _ => value_null!(),
     }
   }
